@@ -38,6 +38,50 @@ pub trait DeriveShape {
     fn derive_shape(&self, symbol_table: &mut BTreeMap<Rc<str>, Shape>) -> Shape;
 }
 
+/// Replaces the type holes named after one of `params` with the unconstrained shape.
+///
+/// Narrowing a hole updates the symbol of that name in whatever symbol table is in use.
+/// A parameter is only in scope inside the function body, so no hole for it may survive
+/// in the shape the function exports. Otherwise a call would narrow a binding of the
+/// caller that merely shares the parameter's name.
+fn close_param_holes(shape: Shape, params: &[Rc<str>]) -> Shape {
+    let close = |s: Shape| close_param_holes(s, params);
+    let close_types = |types: NarrowingShape| match types {
+        NarrowingShape::Narrowed(list) => {
+            NarrowingShape::Narrowed(list.into_iter().map(close).collect())
+        }
+        NarrowingShape::Any => NarrowingShape::Any,
+    };
+    let close_fields = |fields: TupleShape| -> TupleShape {
+        fields.into_iter().map(|(n, s)| (n, close(s))).collect()
+    };
+    match shape {
+        Shape::Hole(pi) if params.contains(&pi.val) => Shape::Narrowed(NarrowedShape {
+            pos: pi.pos,
+            types: NarrowingShape::Any,
+        }),
+        Shape::Tuple(pi) => Shape::Tuple(PositionedItem::new(close_fields(pi.val), pi.pos)),
+        Shape::List(NarrowedShape { pos, types }) => Shape::List(NarrowedShape {
+            pos,
+            types: close_types(types),
+        }),
+        Shape::Narrowed(NarrowedShape { pos, types }) => Shape::Narrowed(NarrowedShape {
+            pos,
+            types: close_types(types),
+        }),
+        Shape::Func(def) => Shape::Func(FuncShapeDef {
+            args: def.args.into_iter().map(|(n, s)| (n, close(s))).collect(),
+            arg_order: def.arg_order,
+            ret: Box::new(close(*def.ret)),
+        }),
+        Shape::Module(def) => Shape::Module(ModuleShape {
+            items: close_fields(def.items),
+            ret: Box::new(close(*def.ret)),
+        }),
+        other => other,
+    }
+}
+
 impl DeriveShape for FuncDef {
     fn derive_shape(&self, symbol_table: &mut BTreeMap<Rc<str>, Shape>) -> Shape {
         // 1. First set up our symbols.
@@ -72,18 +116,16 @@ impl DeriveShape for FuncDef {
             .map(|(sym, _constraint)| {
                 (
                     sym.val.clone(),
-                    sym_table
-                        .get(&sym.val)
-                        .unwrap()
-                        .clone()
+                    close_param_holes(sym_table.get(&sym.val).unwrap().clone(), &arg_order)
                         .with_pos(sym.pos.clone()),
                 )
             })
             .collect::<BTreeMap<Rc<str>, Shape>>();
+        let ret = close_param_holes(shape, &arg_order).with_pos(self.pos.clone());
         Shape::Func(FuncShapeDef {
             args: table,
             arg_order,
-            ret: shape.with_pos(self.pos.clone()).into(),
+            ret: ret.into(),
         })
     }
 }
